@@ -181,8 +181,10 @@ def run(tier):
                         if not thorough and (i + SEED) % 3:
                             continue
                         engine = bytes([0x80, 0, 0, 9] + [(j * 3 + i) % 256 for j in range(elen - 4)])
-                        cfg = rawdrv.Cfg("v3", user="k%d" % i, engine=engine, auth=alg, akt=kt, akm=keybytes(klen, i), priv=priv, pkt=kt,
-                                         pkm=keybytes(klen if kt != "localized" else ks, i + 1) if priv != "none" else b"")
+                        # key material is shared between sessions of different digests / ciphers (same process): a key derived for
+                        # one session must not leak into another
+                        cfg = rawdrv.Cfg("v3", user="k%d" % i, engine=engine, auth=alg, akt=kt, akm=keybytes(klen, klen), priv=priv, pkt=kt,
+                                         pkm=keybytes(klen if kt != "localized" else ks, klen + 1) if priv != "none" else b"")
                         a = rec2.n
                         try:
                             s = rawdrv.RawSession(rec2, cfg)
